@@ -26,8 +26,9 @@ def execute(case):
     for h in case["hrefs"]:
         h = dec(h)
         res = urljoin(cbase if case["canonicalize"] else base, h)
-        ok, e1 = guarded(is_url, res if not __import__("re").match(r"^[a-zA-Z]{0,64}:?//", h) else h, require_protocol=True, tld_aware=True, allow_spaces_in_path=True, only_http_https=True)
-        target = h if __import__("re").match(r"^[a-zA-Z]{0,64}:?//", h) else res
+        own = bool(__import__("re").match(r"^[a-zA-Z]{0,64}:?//", h)) and not h.startswith("//")      # a protocol of its own
+        ok, e1 = guarded(is_url, h if own else res, require_protocol=True, tld_aware=True, allow_spaces_in_path=True, only_http_https=True)
+        target = h if own else res
         can, e2 = guarded(canonicalize_url, target, strip_fragment=case["sf"])
         info.append({"res": enc(res), "isurl": bool(ok), "canon": enc(can or "")})
     follow = []
